@@ -537,7 +537,7 @@ class Layout:
             root = root.value
         if not isinstance(root, ast.Name):
             return []
-        return group_tuples(self.S, root.id)
+        return group_tuples(self.S, alias_root(self.S, root) or root.id)
 
     def _container_elem(self, cont: ast.AST, k: int, depth) -> Optional[dict]:
         """`cont` is a list of tuples built in this function by `D[key].append((..))`; type of tuple position k."""
@@ -1196,6 +1196,10 @@ def _get_var_equiv(ctx, f, S: Scope, e: ast.AST, var: str) -> bool:
 
 
 def layout_loops(ctx) -> List[LayoutLoop]:
+    """Every loop over var_updates['DEs'] that stores, under the loop's variable name, a value built from a loop-carried counter.
+    The loop body is executed symbolically (path-sensitive environment of the locals it assigns: temporaries such as
+    `stop = idx + n`, `result = stop` are followed; the counter may be advanced by `+=` or by re-assignment), each path yields
+    what was stored and the counter's final value in terms of its value C0 at the start of the iteration."""
     cached = getattr(ctx, "_c12_layout_loops", None)
     if cached is not None:
         return cached
@@ -1214,42 +1218,55 @@ def layout_loops(ctx) -> List[LayoutLoop]:
             stores = [s for s in ast.walk(loop) if isinstance(s, ast.Assign) and len(s.targets) == 1
                       and isinstance(s.targets[0], ast.Subscript) and isinstance(s.targets[0].slice, ast.Name)
                       and s.targets[0].slice.id == var]
-            augs = [s for s in ast.walk(loop) if isinstance(s, ast.AugAssign) and isinstance(s.target, ast.Name)]
-            if not stores or not augs:
+            if not stores:
                 continue
-            counters = {a.target.id for a in augs if any(isinstance(x, ast.Name) and x.id == a.target.id
-                                                         for s in stores for x in ast.walk(s.value))}
-            maps = {ast.unparse(s.targets[0].value) for s in stores}
-            if len(counters) != 1 or len(maps) != 1:
-                raise AnalysisError(f"C12-R2: {f.qual}: layout loop `{norm(loop)}` has an unrecognised form "
-                                    f"(counters {sorted(counters)}, maps {sorted(maps)})")
             S = Scope(ctx, f)
-            ll = LayoutLoop(f, loop, var, counters.pop(), maps.pop())
-            out.append(ll)
+            assigned = set()
+            for x in ast.walk(loop):
+                if isinstance(x, ast.AugAssign) and isinstance(x.target, ast.Name):
+                    assigned.add(x.target.id)
+                elif isinstance(x, ast.Assign):
+                    for t in x.targets:
+                        for nm in ast.walk(t):
+                            if isinstance(nm, ast.Name) and isinstance(nm.ctx, ast.Store):
+                                assigned.add(nm.id)
+            for nm in ast.walk(loop.target):
+                if isinstance(nm, ast.Name):
+                    assigned.discard(nm.id)
 
-            def leaf(n, ll=ll, S=S, f=f):
-                if isinstance(n, ast.Name) and n.id == ll.counter:
-                    return None     # handled through env
-                if isinstance(n, ast.Name):
-                    v = S.single_value(n)
-                    if v is not n:
-                        return leaf(v) or None
-                if isinstance(n, ast.Call) and call_name(n) == "sum" and len(n.args) == 1 and isinstance(n.args[0], ast.Attribute) \
-                        and n.args[0].attr == "shape" and _get_var_equiv(ctx, f, S, n.args[0].value, ll.var):
-                    return N
+            def map_text_of(st):
+                m = st.targets[0].value
+                if isinstance(m, ast.Name):
+                    v = S.single_value(m)
+                    if isinstance(v, (ast.Attribute, ast.Name)):
+                        m = v
+                return ast.unparse(m)
+            maps = {map_text_of(s_) for s_ in stores}
+
+            def leaf(n, f=f, S=S, var=var):
+                if isinstance(n, ast.Call) and call_name(n) == "sum" and len(n.args) == 1:
+                    a = n.args[0]
+                    if isinstance(a, ast.Name):
+                        a = S.single_value(a)
+                    if isinstance(a, ast.Attribute) and a.attr == "shape" and _get_var_equiv(ctx, f, S, a.value, var):
+                        return N
                 return None
+            fresh = [0]
 
-            def conv(e, cur):
-                return symx.to_sympy(e, leaf=leaf, env={ll.counter: cur})
+            def conv(e, env):
+                return symx.to_sympy(e, leaf=leaf, env=env)
 
-            def cond_text(t, neg):
+            def cond_text(t, neg, env):
                 if isinstance(t, ast.Compare) and len(t.ops) == 1:
                     try:
-                        l, r = conv(t.left, C0), conv(t.comparators[0], C0)
+                        l, r = conv(t.left, env), conv(t.comparators[0], env)
                     except symx.Unsupported:
                         return None
                     op = type(t.ops[0]).__name__
                     flip = {"Gt": "LtE", "LtE": "Gt", "Lt": "GtE", "GtE": "Lt", "Eq": "NotEq", "NotEq": "Eq"}
+                    swap = {"Gt": "Lt", "Lt": "Gt", "GtE": "LtE", "LtE": "GtE", "Eq": "Eq", "NotEq": "NotEq"}
+                    if r == N and l != N:       # 1 < n  ->  n > 1
+                        l, r, op = r, l, swap.get(op)
                     if neg:
                         op = flip.get(op)
                     # canonical: N-relations written with N on the left
@@ -1262,55 +1279,111 @@ def layout_loops(ctx) -> List[LayoutLoop]:
                     if op in ("Eq",) and r.is_Integer and l == N:
                         return f"N=={int(r)}"
                     return f"{l} {op} {r}"
+                if isinstance(t, ast.UnaryOp) and isinstance(t.op, ast.Not):
+                    return cond_text(t.operand, not neg, env)
                 return None
 
-            def run(stmts, cur, conds, stored):
-                """symbolic execution of a statement list; returns list of (cur, conds, stored) states."""
-                states = [(cur, conds, stored)]
+            def writes(st):
+                return any(x in stores or (isinstance(x, (ast.Assign, ast.AugAssign)) and any(
+                    isinstance(nm, ast.Name) and isinstance(nm.ctx, ast.Store) and nm.id in assigned
+                    for t in (x.targets if isinstance(x, ast.Assign) else [x.target]) for nm in ast.walk(t))) for x in ast.walk(st))
+
+            def run(stmts, env, conds, stored):
+                """symbolic execution of a statement list; returns list of (env, conds, stored) states."""
+                states = [(env, conds, stored)]
                 for st in stmts:
                     nxt = []
-                    for cur, conds, stored in states:
+                    for env, conds, stored in states:
                         if isinstance(st, ast.If):
-                            writes = any((isinstance(x, ast.AugAssign) and isinstance(x.target, ast.Name) and x.target.id == ll.counter)
-                                         or x in stores for x in ast.walk(st))
-                            if not writes:
-                                nxt.append((cur, conds, stored))
+                            if not writes(st):
+                                nxt.append((env, conds, stored))
                                 continue
-                            ct, cf = cond_text(st.test, False), cond_text(st.test, True)
+                            ct, cf = cond_text(st.test, False, env), cond_text(st.test, True, env)
                             if ct is None or cf is None:
                                 raise AnalysisError(f"C12-R2: {f.qual}: branch `{norm(st)}` of the layout loop has an unrecognised test")
-                            nxt += run(st.body, cur, conds + [ct], stored)
-                            nxt += run(st.orelse, cur, conds + [cf], stored)
+                            nxt += run(st.body, dict(env), conds + [ct], stored)
+                            nxt += run(st.orelse, dict(env), conds + [cf], stored)
                         elif st in stores:
                             v = st.value
                             try:
                                 if isinstance(v, ast.Tuple) and len(v.elts) == 2:
-                                    val = (conv(v.elts[0], cur), conv(v.elts[1], cur))
+                                    val = (conv(v.elts[0], env), conv(v.elts[1], env))
                                 else:
-                                    val = (conv(v, cur), None)
+                                    val = (conv(v, env), None)
                             except symx.Unsupported as e:
                                 raise AnalysisError(f"C12-R2: {f.qual}: stored layout value `{norm(st)}` unsupported: {e}")
-                            nxt.append((cur, conds, stored + [val]))
-                        elif isinstance(st, ast.AugAssign) and isinstance(st.target, ast.Name) and st.target.id == ll.counter:
-                            d = conv(st.value, cur)
-                            if isinstance(st.op, ast.Add):
-                                nxt.append((cur + d, conds, stored))
-                            elif isinstance(st.op, ast.Sub):
-                                nxt.append((cur - d, conds, stored))
-                            else:
-                                raise AnalysisError(f"C12-R2: {f.qual}: `{norm(st)}` unsupported")
-                        elif isinstance(st, ast.Assign) and any(isinstance(t, ast.Name) and t.id == ll.counter for t in st.targets):
-                            nxt.append((conv(st.value, cur), conds, stored))
-                        elif isinstance(st, (ast.For, ast.While, ast.Try, ast.With)) and any(
-                                x in stores or (isinstance(x, ast.AugAssign) and getattr(x.target, "id", None) == ll.counter)
-                                for x in ast.walk(st)):
+                            nxt.append((env, conds, stored + [val]))
+                        elif isinstance(st, ast.AugAssign) and isinstance(st.target, ast.Name):
+                            env = dict(env)
+                            try:
+                                cur = env.get(st.target.id, sp.Symbol(st.target.id))
+                                d = conv(st.value, env)
+                                if isinstance(st.op, ast.Add):
+                                    env[st.target.id] = cur + d
+                                elif isinstance(st.op, ast.Sub):
+                                    env[st.target.id] = cur - d
+                                elif isinstance(st.op, ast.Mult):
+                                    env[st.target.id] = cur * d
+                                else:
+                                    raise symx.Unsupported("operator")
+                            except symx.Unsupported:
+                                fresh[0] += 1
+                                env[st.target.id] = sp.Symbol(f"{st.target.id}?{fresh[0]}")
+                            nxt.append((env, conds, stored))
+                        elif isinstance(st, (ast.Assign, ast.AnnAssign)) and not isinstance(getattr(st, "value", None), type(None)):
+                            env = dict(env)
+                            tgs = st.targets if isinstance(st, ast.Assign) else [st.target]
+                            for t in tgs:
+                                pairs = []
+                                if isinstance(t, ast.Name):
+                                    pairs = [(t, st.value)]
+                                elif isinstance(t, (ast.Tuple, ast.List)) and isinstance(st.value, (ast.Tuple, ast.List)) \
+                                        and len(t.elts) == len(st.value.elts):
+                                    pairs = [(a, b) for a, b in zip(t.elts, st.value.elts) if isinstance(a, ast.Name)]
+                                elif isinstance(t, (ast.Tuple, ast.List)):
+                                    pairs = [(a, None) for a in t.elts if isinstance(a, ast.Name)]
+                                vals = []
+                                for a, b in pairs:
+                                    try:
+                                        if b is None:
+                                            raise symx.Unsupported("opaque")
+                                        vals.append((a.id, conv(b, env)))
+                                    except symx.Unsupported:
+                                        fresh[0] += 1
+                                        vals.append((a.id, sp.Symbol(f"{a.id}?{fresh[0]}")))
+                                for k, v in vals:
+                                    env[k] = v
+                            nxt.append((env, conds, stored))
+                        elif isinstance(st, (ast.For, ast.While, ast.Try, ast.With)) and writes(st):
                             raise AnalysisError(f"C12-R2: {f.qual}: layout store/increment nested in `{norm(st)}` (unrecognised form)")
                         else:
-                            nxt.append((cur, conds, stored))
+                            nxt.append((env, conds, stored))
                     states = nxt
                 return states
-            for cur, conds, stored in run(loop.body, C0, [], []):
-                ll.paths.append({"cond": " & ".join(conds) or "always", "stored": stored, "final": cur})
+            states = run(loop.body, {}, [], [])
+            # the counter: the loop-carried local whose value at the start of the iteration appears in what is stored
+            cands = set()
+            for env, conds, stored in states:
+                for lo, hi in stored:
+                    for sym in (lo.free_symbols | (hi.free_symbols if hi is not None else set())):
+                        if sym.name in assigned:
+                            cands.add(sym.name)
+            if not cands:
+                continue
+            if len(cands) != 1 or len(maps) != 1:
+                raise AnalysisError(f"C12-R2: {f.qual}: layout loop `{norm(loop)}` has an unrecognised form "
+                                    f"(counters {sorted(cands)}, maps {sorted(maps)})")
+            counter = cands.pop()
+            ll = LayoutLoop(f, loop, var, counter, maps.pop())
+            out.append(ll)
+            csym = sp.Symbol(counter)
+
+            def c0(x):
+                return None if x is None else x.subs(csym, C0)
+            for env, conds, stored in states:
+                fin = env.get(counter, csym)
+                ll.paths.append({"cond": " & ".join(c.replace(counter, "C0") if False else c for c in conds) or "always",
+                                 "stored": [(c0(lo), c0(hi)) for lo, hi in stored], "final": c0(fin)})
     return out
 
 
@@ -1332,9 +1405,11 @@ def consumer_layout_loop(ctx, f, lls: List[LayoutLoop], depth=3):
     for c in walk_shallow(f.node):
         if not isinstance(c, ast.Call):
             continue
-        if not (isinstance(c.func, ast.Attribute) and isinstance(c.func.value, ast.Name) and c.func.value.id == (f.self_name or "")):
+        if not isinstance(c.func, ast.Attribute):        # self.helper(..), ComputeGraph.helper(..), type(self).helper(..)
             continue
-        targets, how = ctx.cg.resolve_call(f, c)
+        targets, how = ctx.cg.resolve_call(getattr(f, "origin", None) or f, c)
+        if how in ("by-name", "external"):
+            continue
         for g in targets:
             if g is f or g.cls is None or g.cls not in gcls.mro and gcls not in g.cls.mro:
                 continue
@@ -1452,6 +1527,37 @@ def _call_args(call: ast.Call, names: List[str], S: Optional[Scope] = None) -> D
     return out
 
 
+def alias_root(S: Scope, n: ast.AST) -> Optional[str]:
+    """Name `n` -> the name it is a plain alias of (`J0_entries = entries` chains, one definition each); its own id otherwise."""
+    if not isinstance(n, ast.Name):
+        return None
+    for _ in range(8):
+        bs = S.binds(n)
+        if len(bs) == 1 and bs[0].kind == "value" and not bs[0].path and isinstance(bs[0].expr, ast.Name):
+            n = bs[0].expr
+        else:
+            break
+    return n.id
+
+
+def alias_roots(S: Scope, n: ast.AST, depth=0) -> set:
+    """All names `n` may be a plain alias of (every reaching definition followed; empty dict/list displays contribute nothing)."""
+    if not isinstance(n, ast.Name) or depth > 8:
+        return set()
+    out = set()
+    bs = S.binds(n)
+    for b in bs:
+        if b.kind == "value" and not b.path and isinstance(b.expr, ast.Name):
+            out |= alias_roots(S, b.expr, depth + 1)
+        elif b.kind == "value" and b.expr is not None and ((isinstance(b.expr, ast.Dict) and not b.expr.keys)
+                                                          or (isinstance(b.expr, ast.Call) and call_name(b.expr) == "dict" and not b.expr.args
+                                                              and not b.expr.keywords)) and len(bs) > 1:
+            continue
+        else:
+            out.add(n.id)
+    return out or {n.id}
+
+
 def iter_bind(S: Scope, e: ast.AST, depth=0) -> Optional[Tuple[Bind, tuple]]:
     """Name `e` is (a component of) the element of exactly one for/comprehension: (its Bind, path inside the element).
     Looks through `a, b = elem`, `a = elem[0]`, `a = b`."""
@@ -1487,13 +1593,13 @@ def key_component(S: Scope, e: ast.AST, stores: List[EntryStore]) -> Optional[Tu
         return None
     roots0 = {s.root for s in stores if s.depth == 0}
     roots1 = {s.root for s in stores if s.depth == 1}
-    if base.id in roots0 and all(b2.kind == "value" for b2 in S.binds(base)):
-        return base.id, rest[0], b.node
+    if alias_root(S, base) in roots0 and all(b2.kind == "value" for b2 in S.binds(base)):
+        return alias_root(S, base), rest[0], b.node
     bb = iter_bind(S, base)
     if bb is not None:
         r2, b2, rest2 = element_origin(bb[0].expr, bb[1])
-        if r2 == "value" and not rest2 and isinstance(b2, ast.Name) and b2.id in roots1:
-            return b2.id, rest[0], b.node
+        if r2 == "value" and not rest2 and isinstance(b2, ast.Name) and alias_root(S, b2) in roots1:
+            return alias_root(S, b2), rest[0], b.node
     return None
 
 
@@ -1505,13 +1611,13 @@ def table_value(S: Scope, e: ast.AST, stores: List[EntryStore]) -> Optional[str]
     role, base, rest = element_origin(ib[0].expr, ib[1])
     if role != "value" or rest or not isinstance(base, ast.Name):
         return None
-    if base.id in {s.root for s in stores if s.depth == 0}:
-        return base.id
+    if alias_root(S, base) in {s.root for s in stores if s.depth == 0}:
+        return alias_root(S, base)
     bb = iter_bind(S, base)
     if bb is not None:
         r2, b2, rest2 = element_origin(bb[0].expr, bb[1])
-        if r2 == "value" and not rest2 and isinstance(b2, ast.Name) and b2.id in {s.root for s in stores if s.depth == 1}:
-            return b2.id
+        if r2 == "value" and not rest2 and isinstance(b2, ast.Name) and alias_root(S, b2) in {s.root for s in stores if s.depth == 1}:
+            return alias_root(S, b2)
     return None
 
 
@@ -1674,7 +1780,24 @@ def fortran_block(ctx):
             return None
         k = dict_key_read(S, base, jac)
         return (k, ib[0].node) if k else None
-    res = {"f": f0, "view": f, "S": S, "jac": jac, "lines": lines, "exports": exports, "gstores": gstores, "exported_key": exported_key}
+    def provenance(e: ast.AST):
+        """what an emitted index is, whether right or wrong: ('key', table key, position) / ('value', table key) / ('const',) /
+        ('counter',); None when it cannot be traced to an entry of jac[..] (e.g. element of an opaque iterable)"""
+        if e is None:
+            return None
+        if isinstance(e, ast.Constant):
+            return ("const",)
+        ib = iter_bind(S, e)
+        if ib is None:
+            return ("counter",) if isinstance(e, ast.Name) and counter_of(S, e) is not None else None
+        role, base, rest = element_origin(ib[0].expr, ib[1])
+        if role == "index":
+            return ("counter",)
+        k = dict_key_read(S, base, jac) if role in ("key", "value") else None
+        if k is None:
+            return None
+        return ("key", k, tuple(rest)) if role == "key" else ("value", k)
+    res = {"f": f0, "view": f, "S": S, "jac": jac, "provenance": provenance, "lines": lines, "exports": exports, "gstores": gstores, "exported_key": exported_key}
     ctx._c12_fortran = res
     return res
 
@@ -1693,13 +1816,37 @@ def _r1_fortran(ctx, rid):
     popped = isinstance(v, ast.Call) and call_name(v) == "pop" and v.args and isinstance(v.args[0], ast.Constant) and v.args[0].value
     tf = cg_func(ctx, "to_func")
     St = Scope(ctx, tf)
-    setters = [s for s in walk_shallow(tf.node) if isinstance(s, ast.Assign) and len(s.targets) == 1
-               and isinstance(s.targets[0], ast.Subscript) and isinstance(s.targets[0].slice, ast.Constant)
-               and s.targets[0].slice.value == popped]
+    def setters_in(fn):
+        return [s for s in walk_shallow(fn.node) if isinstance(s, ast.Assign) and len(s.targets) == 1
+                and isinstance(s.targets[0], ast.Subscript) and isinstance(s.targets[0].slice, ast.Constant)
+                and s.targets[0].slice.value == popped and isinstance(s.targets[0].value, ast.Name)]
     src_ok = False
-    for s in setters:
+    kwname = tf.node.args.kwarg.arg if tf.node.args.kwarg is not None else None
+    for s in setters_in(tf):
         x = St.single_value(s.value)
-        src_ok = isinstance(x, ast.Call) and is_attr_of(x.func, tf.self_name, "_compute_symbolic_jacobian")
+        src_ok = isinstance(x, ast.Call) and is_attr_of(x.func, tf.self_name, "_compute_symbolic_jacobian") \
+            and s.targets[0].value.id == kwname
+    if not src_ok and kwname:
+        # the store may sit in a helper that receives to_func's keyword dict as a parameter
+        for c in walk_shallow(tf.node):
+            if not (isinstance(c, ast.Call) and isinstance(c.func, ast.Attribute)):
+                continue
+            passed = [i for i, a in enumerate(c.args) if isinstance(a, ast.Name) and a.id == kwname]
+            passed_kw = [k.arg for k in c.keywords if k.arg and isinstance(k.value, ast.Name) and k.value.id == kwname]
+            if not passed and not passed_kw:
+                continue
+            targets, how = ctx.cg.resolve_call(getattr(tf, "origin", None) or tf, c)
+            if len(targets) != 1 or how in ("by-name", "external"):
+                continue
+            h = targets[0]
+            hps = [p for p in h.params if p != h.self_name]
+            recv = passed_kw + [hps[i] for i in passed if i < len(hps)]
+            Sh = Scope(ctx, h)
+            for s in setters_in(h):
+                x = Sh.single_value(s.value)
+                if isinstance(x, ast.Call) and is_attr_of(x.func, h.self_name or "", "_compute_symbolic_jacobian") \
+                        and s.targets[0].value.id in recv and all(b.kind == "param" for b in Sh.binds(s.targets[0].value)):
+                    src_ok = True
     if popped and src_ok:
         ctx.ok(rid, gen, calls[0], f"the Jacobian block receives kwargs[{popped!r}], which to_func sets to the result of "
                                    f"_compute_symbolic_jacobian", label="jacobian data hand-over", nontrivial=False)
@@ -1714,6 +1861,9 @@ def _r1_fortran(ctx, rid):
             kc = fb["exported_key"](split_offset(l["col"])[0], 1)
             facts.update(row=kr and kr[0], column=kc and kc[0])
             if kr is None or kc is None or kr[1] is not kc[1]:
+                if fb["provenance"](split_offset(l["row"])[0]) is None or fb["provenance"](split_offset(l["col"])[0]) is None:
+                    raise AnalysisError(f"{rid}: {f.qual}: `{l['template']}`: cannot trace the emitted indices back to an entry of the "
+                                        f"exported table (unrecognised form)")
                 # transposed?
                 tr = fb["exported_key"](split_offset(l["row"])[0], 1), fb["exported_key"](split_offset(l["col"])[0], 0)
                 why = "row and column are swapped (key component 1 emitted as row): DFDU is transposed" if all(tr) else \
@@ -1730,6 +1880,10 @@ def _r1_fortran(ctx, rid):
             kc = fb["exported_key"](karg, 1) if karg is not None else None
             facts.update(row=kr and kr[0], column_lookup=ast.unparse(cv))
             if kr is None or kc is None or kr[1] is not kc[1]:
+                if fb["provenance"](split_offset(l["row"])[0]) is None or (karg is not None and fb["provenance"](karg) is None) or \
+                        (karg is None and fb["provenance"](cv) is None):
+                    raise AnalysisError(f"{rid}: {f.qual}: `{l['template']}`: cannot trace the emitted indices back to an entry of the "
+                                        f"exported table (unrecognised form)")
                 ctx.violation(rid, f, l["call"], f"`{l['template']}`: the row is not key component 0 / the column is not looked up by the "
                                                  f"parameter name (key component 1) of the same dfdp entry", facts, label=label)
                 continue
@@ -1737,7 +1891,8 @@ def _r1_fortran(ctx, rid):
             ctx.violation(rid, f, l["call"], f"`{l['template']}` is filled from jac[{kr[0]!r}]/jac[{kc[0]!r}] instead of jac[{want!r}]", facts, label=label)
             continue
         ex = fb["exports"].get(want)
-        if not (isinstance(ex, ast.Name) and ex.id in roots):
+        gS = fb.setdefault("gS", Scope(ctx, cg_func(ctx, "_compute_symbolic_jacobian")))
+        if not (isinstance(ex, ast.Name) and alias_roots(gS, ex) <= roots):
             ctx.violation(rid, f, l["call"], f"_compute_symbolic_jacobian exports `{ex and ast.unparse(ex)}` under {want!r}, which is not "
                                              f"the table its sympy.diff results are stored in", facts, label=label)
             continue
@@ -1776,6 +1931,11 @@ def _r5_fortran(ctx, rid):
         good = all(isinstance(o, ast.Constant) and o.value == base for o in offs)
         facts = {"template": l["template"], "fortran_start_idx": base}
         label = f"{l['kind']} line: index base"
+        if not good:
+            idxs = [l["row"]] + ([l["col"]] if l["kind"] == "dfdu" else [])
+            if any(fb["provenance"](split_offset(x)[0]) is None for x in idxs):
+                raise AnalysisError(f"{rid}: {f.qual}: `{l['template']}`: cannot trace the emitted indices back to an entry of the "
+                                    f"exported table, so their index base is unknown (unrecognised form)")
         if good:
             ctx.ok(rid, f, l["call"], f"state indices are offset by {base} (FortranBackend's start index) on "
                                       f"{'row and column' if l['kind'] == 'dfdu' else 'the row'}", facts, label=label)
@@ -1959,6 +2119,32 @@ def _fold_constant_holes(node: ast.AST) -> None:
         js.values = vals
 
 
+def _fold_constant_tests(fnode: ast.AST) -> int:
+    """`if True: A else: B` -> A, `if False: A else: B` -> B (left behind when a helper's flag parameter received a literal)."""
+    n = [0]
+
+    def block(stmts):
+        out = []
+        for st in stmts:
+            if isinstance(st, ast.If) and isinstance(st.test, ast.Constant) and isinstance(st.test.value, (bool, int)):
+                n[0] += 1
+                out.extend(block(st.body if st.test.value else st.orelse))
+                continue
+            for fld in ("body", "orelse", "finalbody"):
+                if isinstance(getattr(st, fld, None), list) and not isinstance(st, (ast.FunctionDef, ast.AsyncFunctionDef, ast.ClassDef)):
+                    new = block(getattr(st, fld))
+                    if fld == "body" and not new:
+                        new = [ast.copy_location(ast.Pass(), st)]
+                    setattr(st, fld, new)
+            if isinstance(st, ast.Try):
+                for h in st.handlers:
+                    h.body = block(h.body) or [ast.copy_location(ast.Pass(), st)]
+            out.append(st)
+        return out
+    fnode.body = block(fnode.body) or [ast.Pass()]
+    return n[0]
+
+
 def _splice_local_generators(fnode: ast.AST) -> int:
     """`for T in G(): BODY` (or `cells = G() ... for T in cells`) where G is a parameterless generator function nested in the same
     function with exactly one `yield E` statement: replaced by G's statements with `yield E` turned into `T = E; BODY`.  Iterating
@@ -1973,7 +2159,7 @@ def _splice_local_generators(fnode: ast.AST) -> int:
             if a.args or a.posonlyargs or a.kwonlyargs or a.vararg or a.kwarg:
                 continue
             ys = [n for n in ast.walk(d) if isinstance(n, (ast.Yield, ast.YieldFrom))]
-            inner_defs = [n for n in ast.walk(d) if isinstance(n, (ast.FunctionDef, ast.Lambda, ast.AsyncFunctionDef)) and n is not d]
+            inner_defs = [n for n in ast.walk(d) if isinstance(n, (ast.FunctionDef, ast.AsyncFunctionDef)) and n is not d]
             rets = [n for n in ast.walk(d) if isinstance(n, ast.Return)]
             if len(ys) != 1 or not isinstance(ys[0], ast.Yield) or ys[0].value is None or inner_defs or rets:
                 continue
@@ -2061,7 +2247,7 @@ def analysis_view(ctx, f, keep=()):
         from engine.inline import clone, _mk, InlinedFunction
         from engine.srcmodel import set_parents
         node = clone(fi.node)
-        n = _splice_local_generators(node)
+        n = _splice_local_generators(node) + _fold_constant_tests(node)
         before = ast.dump(node)
         _fold_constant_holes(node)
         if n or ast.dump(node) != before:
@@ -2241,7 +2427,8 @@ def r3_resolved_before_print(ctx, rid):
                     value_loads.setdefault(r, []).append(n)
         for es in stores:
             resolved = all(r for _, r in es.diffs)
-            exported = [k for k, v in exports.items() if isinstance(v, ast.Name) and v.id == es.root] if f.qualname.endswith("_compute_symbolic_jacobian") else []
+            exported = [k for k, v in exports.items() if isinstance(v, ast.Name) and es.root in alias_roots(S, v)] \
+                if f.qualname.endswith("_compute_symbolic_jacobian") else []
             direct = []
             for n in value_loads.get(es.root, []):
                 par = parent(n)
@@ -2291,6 +2478,58 @@ def r3_resolved_before_print(ctx, rid):
 # R4: sparse changes only the container
 # =================================================================================================
 
+_ENTRY_WORK = ("emit_local_array_assign", "emit_local_array_alloc", "_expr_to_jac_str", "diff", "_get_symbolic_rhs", "add_code_line",
+               "generate_func_head", "generate_func", "add_var", "register_vars", "_compute_symbolic_jacobian")
+
+
+def _flag_selects_value_only(ctx, f, call: ast.Call, arg: ast.Name, depth: int) -> Optional[bool]:
+    """`call` hands the flag `arg` to a repository function.  True: the callee computes/emits no Jacobian entry and reads the
+    received flag only in tests (it merely selects the value it returns); False: the callee does entry work or uses the flag as
+    data; None: cannot be analysed."""
+    if depth > 2 or any(isinstance(a, ast.Starred) for a in call.args):
+        return None
+    targets, how = ctx.cg.resolve_call(getattr(f, "origin", None) or f, call)
+    if len(targets) != 1 or how in ("by-name", "external"):
+        return None
+    g0 = targets[0]
+    g = analysis_view(ctx, g0, keep=CG_ANCHORS)
+    ps = [p for p in g0.params if p != g0.self_name] if not g0.is_static else list(g0.params)
+    a = _call_args(call, ps)
+    recv = [k for k, v in a.items() if v is arg]
+    if len(recv) != 1:
+        return None
+    pname = recv[0]
+    if any(isinstance(c, ast.Call) and call_name(c) in _ENTRY_WORK for c in ast.walk(g.node)):
+        return False
+    if any(isinstance(x, (ast.Yield, ast.YieldFrom, ast.Global, ast.Nonlocal)) for x in ast.walk(g.node)):
+        return None
+    for n in ast.walk(g.node):
+        if isinstance(n, ast.Name) and n.id == pname:
+            if isinstance(n.ctx, ast.Store):
+                return None
+            st = n
+            while not isinstance(st, ast.stmt):
+                st = parent(st)
+            in_test = isinstance(st, (ast.If, ast.While)) and contains(st.test, n)
+            x = n
+            while not in_test and x is not st:
+                px = parent(x)
+                if isinstance(px, ast.IfExp) and (px.test is x or contains(px.test, n)):
+                    in_test = True
+                x = px
+            if in_test:
+                continue
+            par = parent(n)
+            c2 = par if isinstance(par, ast.Call) else (parent(par) if isinstance(par, ast.keyword) else None)
+            if isinstance(c2, ast.Call) and n in list(c2.args) + [k.value for k in c2.keywords]:
+                r = _flag_selects_value_only(ctx, g, c2, n, depth + 1)
+                if r is True:
+                    continue
+                return r
+            return False
+    return True
+
+
 def r4_sparse_confined(ctx, rid):
     f = cg_func(ctx, "get_jacobian_func")
     S = Scope(ctx, f)
@@ -2317,6 +2556,8 @@ def r4_sparse_confined(ctx, rid):
     def reads_flag(e):
         return any(isinstance(x, ast.Name) and x.id in flags and isinstance(x.ctx, ast.Load) for x in ast.walk(e))
     guards = []
+    helper_guards = []
+    helper_tainted = set()
     for n in walk_shallow(f.node):
         if isinstance(n, ast.Name) and n.id in flags and isinstance(n.ctx, ast.Load):
             st = n
@@ -2331,9 +2572,29 @@ def r4_sparse_confined(ctx, rid):
                     and contains(st.value.test, n):
                 guards.append(st)      # x = a if sparse else b : treated like a guarded assignment
             else:
-                ctx.violation(rid, f, st, f"`{n.id}` is read outside an if-test (`{norm(st)}`): the flag reaches code that computes or "
-                                          f"emits entries", label=f"sparse read in {norm(st)}")
-    ctx.require(guards, f"{rid}: `sparse` is never tested in get_jacobian_func")
+                # handed to a helper that only selects a value by it (e.g. builds the return expression)?
+                par = parent(n)
+                call = par if isinstance(par, ast.Call) else (parent(par) if isinstance(par, ast.keyword) else None)
+                verdict = _flag_selects_value_only(ctx, f, call, n, 0) if isinstance(call, ast.Call) else False
+                if verdict is True:
+                    is_tail = isinstance(st, ast.Expr) and isinstance(st.value, ast.Call) and call_name(st.value) == "generate_func_tail"
+                    if isinstance(st, ast.Assign) and all(isinstance(t, ast.Name) for t in st.targets):
+                        helper_tainted |= {t.id for t in st.targets}
+                        ctx.ok(rid, f, st, f"`{n.id}` is handed to `{call_name(call)}`, which only selects the value it returns by the flag "
+                                           f"(flow of the result checked below)", label=f"sparse guard {norm(st)}")
+                    elif is_tail and contains(st.value, call):
+                        ctx.ok(rid, f, st, f"`{n.id}` is handed to `{call_name(call)}`, which only selects the returned expression by the flag",
+                               label=f"sparse guard {norm(st)}")
+                    else:
+                        raise AnalysisError(f"{rid}: `{norm(st)}`: the flag-dependent result of `{call_name(call)}` is used in an "
+                                            f"unrecognised way")
+                    helper_guards.append(st)
+                elif verdict is None:
+                    raise AnalysisError(f"{rid}: `{norm(st)}` hands `{n.id}` to a callee whose use of the flag cannot be analysed")
+                else:
+                    ctx.violation(rid, f, st, f"`{n.id}` is read outside an if-test (`{norm(st)}`): the flag reaches code that computes or "
+                                              f"emits entries", label=f"sparse read in {norm(st)}")
+    ctx.require(guards or helper_guards, f"{rid}: `sparse` is never tested in get_jacobian_func")
     # nothing that computes/emits an entry is control dependent on the flag
     stores = entry_stores(ctx, f)
     emitters = [es.stmt for es in stores]
@@ -2351,7 +2612,7 @@ def r4_sparse_confined(ctx, rid):
         else:
             ctx.ok(rid, f, e, "computed/emitted independently of `sparse`", label=label, nontrivial=False)
     # guard bodies: only raise / import / assignments that flow into the return expression; no early exits
-    tainted = set()
+    tainted = set(helper_tainted)
     for g in guards:
         if isinstance(g, ast.Assign):
             tainted |= {t.id for t in g.targets}
@@ -2385,8 +2646,9 @@ def r4_sparse_confined(ctx, rid):
                 while not isinstance(st, ast.stmt):
                     st = parent(st)
                 under_guard = any(isinstance(g, ast.If) and g is not st and contains(g, st) for g in guards)
-                if isinstance(st, ast.Assign) and all(isinstance(t, ast.Name) for t in st.targets):
-                    new = {t.id for t in st.targets} - tainted
+                if isinstance(st, ast.Assign) and all(isinstance(t, ast.Name) or (isinstance(t, (ast.Tuple, ast.List)) and all(
+                        isinstance(x, ast.Name) for x in t.elts)) for t in st.targets):
+                    new = {x.id for t in st.targets for x in ast.walk(t) if isinstance(x, ast.Name)} - tainted
                     if new:
                         tainted |= new
                         changed = True
@@ -2622,7 +2884,7 @@ def r7_algebraic_expansion_fixpoint(ctx, rid):
                 args.append(a.get(table))
         if not args or not all(isinstance(a, ast.Name) for a in args) or len({a.id for a in args}) != 1:
             raise AnalysisError(f"{rid}: cannot follow the definitions table `{table}` of {exp.qualname} to its call sites")
-        tname = args[0].id
+        tname = alias_root(Scope(ctx, f), args[0]) or args[0].id      # `non_de = collected` aliases of the filled dict
     filled = [n for n in walk_shallow(host.node) if isinstance(n, ast.Assign) and len(n.targets) == 1 and isinstance(n.targets[0], ast.Subscript)
               and isinstance(n.targets[0].value, ast.Name) and n.targets[0].value.id == tname]
     in_nonde_loop = any(isinstance(a, ast.For) and "non-DEs" in ast.unparse(a.iter) for x in filled for a in _ancestors_of(x))
